@@ -51,6 +51,20 @@ StrictlyInside(h, ring) ==
     /\ \A i \in 1 .. Len(h) : \A j \in Edges(ring) :
           ~SegSegMeet(h[i], h[(i % Len(h)) + 1], ring[j], ring[j+1])
 
+\* hole touching the shell in exactly one point: one hole vertex on the shell (a shell vertex or the interior of a shell
+\* edge), the others strictly inside, and the hole's edges meet the shell nowhere else.  Such a polygon is still valid.
+TouchesOnce(h, ring) ==
+    LET n == Len(h)
+        onb == {i \in 1 .. n : RingPos(h[i], ring) = "B"}
+    IN /\ Cardinality(onb) = 1
+       /\ \A i \in (1 .. n) \ onb : RingPos(h[i], ring) = "I"
+       /\ LET t == CHOOSE i \in onb : TRUE  v == h[t] IN
+          \A i \in 1 .. n : \A j \in Edges(ring) :
+              LET a == h[i]  b == h[(i % n) + 1] IN
+              SegSegMeet(a, b, ring[j], ring[j + 1]) =>
+                  /\ (a = v \/ b = v) /\ OnSeg(v, ring[j], ring[j + 1])
+                  /\ Cross(ring[j], ring[j + 1], IF a = v THEN b ELSE a) # 0
+
 \* exact first moments of a closed ccw ring: Sx = sum (x_i + x_{i+1}) * cross_i, likewise Sy
 RECURSIVE MomX(_, _), MomY(_, _)
 MomX(r, i) == IF i >= Len(r) THEN 0
@@ -90,6 +104,8 @@ Case(p, hs) ==
     IN [op |-> "poly", ext |-> ring, holes |-> [i \in DOMAIN hs |-> RingOf(hs[i])],
         a2ext |-> a2e, a2hole |-> a2h,
         cx |-> <<sx, 3 * (a2e - a2h)>>, cy |-> <<sy, 3 * (a2e - a2h)>>, valid |-> TRUE,
+        \* number of holes that touch the shell in a point (ear-cut is only claimed for 0)
+        touch |-> Cardinality({i \in DOMAIN hs : \E k \in DOMAIN hs[i] : RingPos(hs[i][k], ring) = "B"}),
         \* Triangle on the first three shell vertices and bounding Rect of the shell (C05: Rect and
         \* Triangle areas equal those of their polygon form; collection areas are sums)
         tri2 |-> Abs(Cross(p[1], p[2], p[3])),
@@ -108,6 +124,10 @@ AddHole == /\ phase = "ring" /\ WithHoles /\ Area2(RingOf(path)) >= HoleMinA2
            /\ \E h \in HoleCat : /\ StrictlyInside(h, RingOf(path))
                                  /\ hole' = h /\ phase' = "holed" /\ UNCHANGED path
                                  /\ PrintT(<<"CASE", ToJson(Case(path, <<h>>))>>)
+AddTouchHole == /\ phase = "ring" /\ WithHoles /\ Area2(RingOf(path)) >= HoleMinA2
+                /\ \E h \in HoleCat : /\ TouchesOnce(h, RingOf(path))
+                                      /\ hole' = h /\ phase' = "touching" /\ UNCHANGED path
+                                      /\ PrintT(<<"CASE", ToJson(Case(path, <<h>>))>>)
 AddHole2 == /\ phase = "holed" /\ WithHoles
             /\ \E h \in HoleCat : /\ LexLess(hole[1], h[1]) /\ StrictlyInside(h, RingOf(path)) /\ Apart(hole, h)
                                   /\ phase' = "holed2" /\ UNCHANGED <<path, hole>>
@@ -117,7 +137,7 @@ EmitBig == /\ phase = "big" /\ phase' = "bigdone" /\ UNCHANGED <<path, hole>>
            /\ PrintT(<<"CASE", ToJson(Case(path, <<>>))>>)
            /\ PrintT(<<"CASE", ToJson(Case(path, <<UnitHole(1, 1)>>))>>)
            /\ PrintT(<<"CASE", ToJson(Case(path, <<UnitHole(1, 1), UnitHole(1, 3)>>))>>)
-Next == Extend \/ Close \/ AddHole \/ AddHole2 \/ EmitBig
+Next == Extend \/ Close \/ AddHole \/ AddTouchHole \/ AddHole2 \/ EmitBig
 Spec == Init /\ [][Next]_vars
 
 \* sanity of the generator itself: an emitted shell is a simple ring with positive area
